@@ -4,7 +4,7 @@
    harness/lib.py — keep the format  "| <n> (* <name> *) =>". *)
 From Dlms Require Import Base CrcModel CrcSpec FieldsModel FieldsSpec AddrModel AddrSpec WrapperModel WrapperSpec
   TimeModel TimeSpec AxdrModel AxdrSpec AxdrBridge FrameModel FrameSpec HdlcConnModel HdlcScript HdlcLinkSpec
-  ParsersModel AssocModel AssocSpec TransportModel ClientModel.
+  ParsersModel AssocModel AssocSpec TransportModel ClientModel Aes Gcm SecurityModel.
 
 Definition v_bools (l : list bool) : V := VList (map VBool l).
 Definition as_bools (v : V) : list bool := map as_b (as_list v).
@@ -148,6 +148,8 @@ Fixpoint cl_script (c : cl) (ops : list V) : list V * cl :=
   | [] => ([], c)
   | o :: r => let '(out, c1) := cl_step c o in let '(outs, c2) := cl_script c1 r in (out :: outs, c2)
   end.
+
+Definition as_sc (v : V) : sc := (as_n (arg 0 v), as_b (arg 1 v), as_b (arg 2 v), as_b (arg 3 v), as_b (arg 4 v)).
 
 Definition run (op : N) (a : V) : V :=
   match op with
@@ -295,5 +297,20 @@ Definition run (op : N) (a : V) : V :=
       let '(outs, c) := cl_script c0 (as_list (arg 2 a)) in
       VList [VList outs; VN (cl_state c); VList (map (fun x => let '(k, b, i) := x in VList [VN k; VN b; VN i]) (cl_sent c));
              v_nat (length (cl_io c))]
+  (* ---- AES-GCM protection (C05) ---- *)
+  | 160 (* sec_encrypt *) =>
+      v_res VBytes (sec_encrypt aes_encrypt (as_sc (arg 0 a)) (as_bytes (arg 1 a)) (as_n (arg 2 a)) (as_bytes (arg 3 a))
+                                (as_bytes (arg 4 a)) (as_bytes (arg 5 a)))
+  | 161 (* sec_decrypt *) =>
+      v_res VBytes (sec_decrypt aes_encrypt (as_sc (arg 0 a)) (as_bytes (arg 1 a)) (as_n (arg 2 a)) (as_bytes (arg 3 a))
+                                (as_bytes (arg 4 a)) (as_bytes (arg 5 a)))
+  | 162 (* sec_gmac *) =>
+      v_res VBytes (sec_gmac aes_encrypt (as_sc (arg 0 a)) (as_bytes (arg 1 a)) (as_n (arg 2 a)) (as_bytes (arg 3 a))
+                             (as_bytes (arg 4 a)) (as_bytes (arg 5 a)))
+  | 163 (* sec_wrap_key *) => v_res VBytes (sec_wrap_key aes_encrypt (as_sc (arg 0 a)) (as_bytes (arg 1 a)) (as_bytes (arg 2 a)))
+  | 164 (* sec_unwrap_key *) => v_res VBytes (sec_unwrap_key aes_decrypt (as_sc (arg 0 a)) (as_bytes (arg 1 a)) (as_bytes (arg 2 a)))
+  | 165 (* spec_gcm *) =>
+      let '(c, t) := gcm_encrypt (aes_encrypt (as_bytes (arg 0 a))) (as_bytes (arg 1 a)) (as_bytes (arg 2 a)) (as_bytes (arg 3 a)) in
+      VList [VBytes c; VBytes t]
   | _ => bad_args
   end.
